@@ -416,8 +416,12 @@ where
 	if in_utxo != expected_in_utxo {
 		return Ok(false);
 	}
+	// (the same record as when the scan listed it: same status and still linked to the same
+	// log entry. An output that an earlier repair of this scan released - giving up the
+	// transaction that held it - may have been reserved again by a new transaction since;
+	// it is locked again, but not by what this repair was decided for.)
 	let mut o = match w.get(&output.key_id, &output.mmr_index) {
-		Ok(cur) if cur.status == expected_status => cur,
+		Ok(cur) if cur.status == expected_status && cur.tx_log_entry == output.tx_log_entry => cur,
 		_ => return Ok(false),
 	};
 	let parent_key_id = o.key_id.parent_path();
